@@ -162,6 +162,10 @@ def merge(dumps):
                 for x in v:
                     if x not in m['extra'][k] and len(m['extra'][k]) < 50:
                         m['extra'][k].append(x)
+            elif isinstance(v, dict):
+                m['extra'].setdefault(k, {})
+                if isinstance(m['extra'][k], dict):
+                    m['extra'][k].update(v)
             else:
                 m['extra'].setdefault(k, v)
         for k, v in d['samples'].items():
